@@ -10,6 +10,32 @@ for l in open(os.path.join(VERIF, "properties.jsonl")):
 
 # id -> (category, technique, text, note, design_ref)
 CLAIMED = {
+    "C13": ("proof",
+            "Lean 4 theorems (typing judgement, script template and length, all expression trees by structural induction) "
+            "+ fact extraction of the class table + model/implementation/spec correspondence",
+            "Props/C13.lean proves, for EVERY expression tree over the 23 fragments and 10 wrappers embit supports, in both "
+            "contexts (wsh / tapscript leaf), with no depth bound: (1) the model of embit's verify()/type/properties agrees with "
+            "the published miniscript type table at every base type (typing_agrees), hence the library accepts an expression "
+            "inside a descriptor exactly when it is well-typed with top-level B (sound, complete, accepts_eq_wellTyped; argument "
+            "ranges 1<=k<=n<=20 / <=999, timelocks 1..2^31-1, multi only in wsh, multi_a only in tapscript, d: has u only in "
+            "tapscript); the rules for pk, pkh, and_n, t:, l:, u:, sortedmulti* are DERIVED in the spec by desugaring to core "
+            "fragments; (2) compile() equals the specification's script template serialised with minimal pushes, including the "
+            "v: last-opcode folding done on bytes by embit and on opcodes by the spec (compile_eq_template); (3) len() equals the "
+            "compiled length for every tree, typed or not (len_eq_compiled). Static class attributes (TYPE, PROPS, "
+            "_expected_taproot, MAX_KEYS) are not hand-copied: harness/facts.py re-extracts them from the loaded module into "
+            "Generated/MiniscriptTable.lean on every run and the theorems are re-checked against them; the method-resolution "
+            "structure the hand model relies on is pinned by structure_as_modelled. The model follows the code after seven small "
+            "fixes (fixes/*.diff: D17-D22); theorems old_* show that each old rule violated the table. The tie to /repo: generated "
+            "trees are printed as descriptor text for embit's real parser and as tokens for the native Lean driver; accept/reject, "
+            "type, properties, compile() and len() are diffed against the model, and embit is compared directly with the "
+            "executable spec (accept iff well-typed, script = template, len = compiled length = template length).",
+            "Trusted: Lean kernel + propext/Quot.sound/Classical.choice; the transcription of the miniscript tables in "
+            "Spec/MiniscriptSpec.lean; the Python harness (tree printers, key payloads computed with hashlib). Keys are abstract "
+            "byte strings in the theorems; key / xpub / checksum parsing is C12's subject. compile_eq_template assumes pushed "
+            "keys/hashes < 76 bytes, thresh k < 2^256 and equal-length keys inside sortedmulti*; len_eq_compiled assumes hash "
+            "arguments of the parsed length and non-empty thresh/multi_a (compile() raises there). Only the type system named in "
+            "the property is covered (B/V/K/W, z/o/n/d/u): malleability, timelock mixing and resource limits are not.",
+            "§5 C13"),
     "C15": ("proof",
             "Lean 4 theorems (mnemonic_to_bytes = BIP39 decoding, mnemonic_from_bytes = BIP39 encoding, both round trips, "
             "for every 32-byte hash function and every list of 2048 distinct words) + model/implementation correspondence",
